@@ -1119,3 +1119,39 @@ def argv_spellings(rng, count):
         out.append(Case(argv, c.stdin, tags={"grp": g, "role": "spelling1"}))
         out.append(Case(_respell(rng, argv), c.stdin, tags={"grp": g, "role": "spelling2"}))
     return out
+
+
+def _gen_re(rng, depth=0):
+    """a random regex of the modelled family (and a little beyond: the model says 'unknown' there)"""
+    r = rng.random()
+    if depth > 2 or r < 0.35:
+        return rng.choice(["a", "b", "-", ",", "x", "0", " ", "é", "ab", "--"])
+    if r < 0.5:
+        return rng.choice(["[ab]", "[a-c]", "[,;]", "[0-9]", "[ ,]", "[-,]", "[a-]", "[^a]"])
+    if r < 0.7:
+        return _gen_re(rng, depth + 1) + _gen_re(rng, depth + 1)
+    if r < 0.85:
+        return _gen_re(rng, depth + 1) + "|" + _gen_re(rng, depth + 1)
+    if r < 0.93:
+        return "(" + _gen_re(rng, depth + 1) + ")" + rng.choice(["", "+", "+"])
+    return _gen_re(rng, depth + 1) + "+"
+
+
+def regex_random(rng, n):
+    """random regexes from a grammar, and random strings over the regex syntax"""
+    out = []
+    for _ in range(n):
+        if rng.random() < 0.8:
+            re_ = _gen_re(rng)
+        else:
+            re_ = "".join(rng.choice("ab|()[]+-,") for _ in range(rng.randint(1, 5)))
+        argv = ["-e", re_, "-f", gen_bounds(rng)]
+        if rng.random() < 0.5: argv += ["-r", rng.choice(["/", "", "$0", ",", "ab"])]
+        for f in ("-g", "-p", "-s", "-m", "-j"):
+            if rng.random() < 0.2: argv.append(f)
+        if rng.random() < 0.25: argv += ["-t", rng.choice("lrb")]
+        if rng.random() < 0.2: argv += ["--fallback-oob", "G"]
+        alpha = list(b"ab-,;xy0 c") + list("é".encode())
+        recs = [bytes(rng.choice(alpha) for _ in range(rng.randint(0, 9))) for _ in range(rng.randint(1, 3))]
+        out.append(Case(argv, b"\n".join(recs) + (b"\n" if rng.random() < 0.7 else b"")))
+    return out
